@@ -12,7 +12,7 @@ import (
 func init() { register("C04", propC04) }
 
 func propC04(r *Report, tier string) {
-	r.Explanation = "Structural necessary conditions of 'readers see whole batches in order; a reader's view never changes': (a) K7 single publication point: Scorch.root is stored only by the three introducers, loadFromBolt (open phase), Close and the constructor, always under rootLock (write); every other access under the lock (K2); (b) K6 immutability after publication: published fields of IndexSnapshot / SegmentSnapshot are only stored through objects freshly built in the same function, before the root swap; no in-place bitmap mutator or map write reaches a field of a non-fresh snapshot; (c) acknowledgement after publication: applied/notify channels are answered only after the root swap; Batch returns only after applied; (d) reader pinning: the root pointer is read and referenced inside one read critical section, internal users release their references on all exits; (e) epochs strictly increase: every value drawn from nextSnapshotEpoch is drawn under the write lock and immediately followed by its increment; the introducers are reachable only from the introducer goroutine; (f) deletions arriving during a merge are re-applied through the old->new map; (g) upsidedown: writers serialised by the write mutex with their back-index reads inside it; K2b the KV snapshot and the cached doc count must be taken/updated atomically (reports the KNOWN finding F5)."
+	r.Explanation = "Structural necessary conditions of 'readers see whole batches in order; a reader's view never changes': (a) K7 single publication point: Scorch.root is stored only by the three introducers, loadFromBolt (open phase), Close and the constructor, always under rootLock (write); every other access under the lock (K2); (b) K6 immutability after publication: published fields of IndexSnapshot / SegmentSnapshot are only stored through objects freshly built in the same function, before the root swap; no in-place bitmap mutator or map write reaches a field of a non-fresh snapshot; (c) acknowledgement after publication: applied/notify channels are answered only after the root swap; Batch returns only after applied; (d) reader pinning: the root pointer is read and referenced inside one read critical section, internal users release their references on all exits; (e) epochs strictly increase: every value drawn from nextSnapshotEpoch is drawn under the write lock and immediately followed by its increment; the introducers are reachable only from the introducer goroutine; (f) deletions arriving during a merge are re-applied through the old->new map; (g) upsidedown: writers serialised by the write mutex with their back-index reads inside it; K2b the KV snapshot and the cached doc count must be taken/updated atomically (reports the KNOWN finding F5). K6 also requires fresh storage: at an element write / delete through a field of a snapshot built in the function, every reaching definition of that field is an allocation (a map or slice initialised from the published root is shared storage)."
 	r.NotCovered = "schedule-dependent ordering with correct locking; monotonic reads across different API calls beyond epoch monotonicity; merged content equality (C05)"
 	in := findIntroducers(r.P)
 	ruleRootPublishers(r, in, "K7-root-publishers")
